@@ -129,6 +129,16 @@ def cases(tier):
             sig = msmref.first_n(32, ng, 1)
             for cell in range(1 << (ns * ng)):
                 add(ident, sat, sig, cell)
+        # cell-mask widths of every residue modulo 8 (the mask starts at payload bit 169: width 7, 15,
+        # 23 ... makes it END on an octet boundary): full, empty, alternating, every single cell
+        for ns, ng in ((7, 1), (1, 7), (4, 2), (3, 3), (5, 2), (11, 1), (4, 3), (13, 1), (7, 2), (5, 3), (3, 5),
+                       (23, 1), (31, 1), (13, 3), (47, 1), (11, 5), (9, 7), (21, 3)):
+            sat = msmref.first_n(64, ns, 2)
+            sig = msmref.first_n(32, ng, 1)
+            n = ns * ng
+            for cell in [(1 << n) - 1, 0, int("10" * n, 2) & ((1 << n) - 1), int("01" * n, 2) & ((1 << n) - 1)] + \
+                    ([1 << b for b in range(n)] if n <= 24 or ident.endswith("7") else [1, 1 << (n - 1)]):
+                add(ident, sat, sig, cell)
         # big shapes: popcount <= 1 and full cell masks
         for ns, ng in ((8, 8), (64, 1), (2, 32)) + (((3, 32),) if tier == "thorough" else ()):
             sat = msmref.first_n(64, ns, 0)
@@ -157,6 +167,23 @@ def run(tier, seed, t0):
     triples = [(1 << 63, 1 << 30, 1), (7 << 61, 1 << 30, 0b101), ((1 << 63) | 1, (1 << 30) | (1 << 9), 0b0110),
                (1 << 61, 0b11 << 22, 0b01), (0x8040201008040201, 0x80008001, 0xA5A5A5A5)]
     order = [(i, t) for t in triples for i in ids] + [(i, t) for t in triples for i in reversed(ids)]
+    # mask triples whose RENDERINGS run together to the same text when written one after the other
+    # without padding or separators (hex and decimal): a digit moved from the tail of the
+    # satellite mask to the head of the signal mask, equal cell-mask values
+    def moved(sat, sig, base):
+        d = sat % base
+        width = 1
+        while base ** width <= sig:
+            width += 1
+        return sat // base, d * base ** width + sig
+
+    for sat, sig, cell in ((0x20004000000AB, 0x40404, 0x15A3C7), (0x8000000000000012, 0x0404, 0b1011),
+                           (0x123456789, 0x2002, 0x3F), ((1 << 63) | 0x37, 0x10010, 0x1FF)):
+        for base in (16, 10):
+            s2, g2 = moved(sat, sig, base)
+            if 0 < s2 < 1 << 64 and 0 < g2 < 1 << 32:
+                for ident in ("1074", "1124", "1097"):
+                    order += [(ident, (sat, sig, cell)), (ident, (s2, g2, cell)), (ident, (sat, sig, cell))]
     nseq = 0
     for lm_order in ((1, 2), (2, 1)):
         for ident, (sat, sig, cell) in order:
